@@ -19,7 +19,10 @@ RULE = ("the scripts of C02/C10/C11 (random event programs with ties, zero-delay
 TRUSTED = ["std::collections::BinaryHeap is modelled as a finite bag whose pop returns a minimum-time element chosen by an"
            " oracle (its sift-up/down is not modelled); EventNode's comparison operators are read as 'by time, reversed'",
            "the copy of default_impl under cfg_miri! is textually identical (compared by tools, not built)",
-           "user code is the scripted handler of harness/src/bin/rt.rs"]
+           "user code is the scripted handler of harness/src/bin/rt.rs",
+           "the runtime-level statements for this backend (clock: C02_holds_over_heap; limits: C11_*_heap; stepping: C10_*_heap)"
+           " are instances of the theorems about the runtime over an arbitrary event set (coq/Runtime/EvSet.v, Generic*.v) and"
+           " live in Properties/C02.v, C10.v, C11.v"]
 ASSUMPTIONS = ["times fit in 63 bits per wire number (time unit field for larger timestamps)"]
 CLAIM = None
 
